@@ -1,6 +1,7 @@
 package main
 
 import (
+	"verif.local/harness/c09"
 	"verif.local/harness/c13"
 	"verif.local/harness/c14"
 	"verif.local/harness/c18"
@@ -10,6 +11,7 @@ import (
 type statser interface{ Stats() *simkit.Stats }
 
 var registry = map[string]func() simkit.Property{
+	"C09": func() simkit.Property { return c09.New() },
 	"C13": func() simkit.Property { return c13.New() },
 	"C14": func() simkit.Property { return c14.New() },
 	"C18": func() simkit.Property { return c18.New() },
